@@ -390,3 +390,37 @@ def run(tier: str, seed: int) -> int:
     canary_trace(chk, (accepted or withcall)[0], clean=bool(accepted))
     canary_replay(chk, first, rng)
     return chk.finish()
+
+
+def replay(path: str) -> int:
+    """./check C16 --replay <path>: re-execute a recorded counterexample on the current tree."""
+    import json
+    data = json.loads(open(path).read())
+    rep = data["replay"]
+    if "init" not in rep:
+        print(f"[C16] replay {path}: specification-level counterexample (TLC output kept in the file), "
+              "nothing to execute on the code")
+        return 0
+    impl = HooksImpl(rep["init"], rep.get("real"))
+    if "ops" in rep:                       # recorded trace: the last operation is the failing one
+        pre, op = rep["ops"][:-1], rep["ops"][-1]
+    else:
+        pre, op = rep.get("path", []), rep.get("op")
+    for o in pre:
+        impl.apply(o)
+    if op is None:                         # the path itself ended in an unexpected state
+        got, want = impl.project(), rep.get("expected_state")
+        ok = graph.canon(got) == graph.canon(want)
+        print(f"[C16] replay {path}: state after path {'matches' if ok else 'DIFFERS from'} the specified state")
+        if not ok:
+            print(f"VIOLATION property=C16 replay={path}")
+        return 0 if ok else 1
+    ret = impl.apply(op)
+    st = impl.project()
+    exp = rep.get("expected") or []
+    ok = any(graph.canon(o["ret"]) == graph.canon(ret) and graph.canon(o["st"]) == graph.canon(st) for o in exp)
+    pass
+    print(f"[C16] replay {path}: op={op} observed ret={ret} -> {'as specified' if ok else 'NOT an outcome of the specification'}")
+    if not ok:
+        print(f"VIOLATION property=C16 replay={path}")
+    return 0 if ok else 1
